@@ -22,6 +22,12 @@ type padInfo struct {
 var patAppendPad = mustPat("append(makeslice<[]byte>(binop<->(%S, len(%V)), %S), %V)")
 
 func (P *Prog) leftPad(fn *ssa.Function, v ssa.Value, depth int) (*padInfo, string) {
+	return P.leftPadE(P.terms, fn, v, depth)
+}
+
+// leftPadE: leftPad with the values of fn evaluated by eng (e.g. one
+// iteration of a constant-bound loop).
+func (P *Prog) leftPadE(eng *termEngine, fn *ssa.Function, v ssa.Value, depth int) (*padInfo, string) {
 	for {
 		switch x := v.(type) {
 		case *ssa.MakeInterface:
@@ -35,10 +41,10 @@ func (P *Prog) leftPad(fn *ssa.Function, v ssa.Value, depth int) (*padInfo, stri
 	}
 	switch x := v.(type) {
 	case *ssa.MakeSlice:
-		return P.padByCopy(fn, x)
+		return P.padByCopy(eng, fn, x)
 	case *ssa.Call:
 		if b, ok := x.Call.Value.(*ssa.Builtin); ok && b.Name() == "append" {
-			t := P.terms.of(x)
+			t := eng.of(x)
 			bnd, ok := unify(patAppendPad, t, bindings{})
 			if !ok {
 				return nil, "value " + truncate(t.String(), 140) + " is not make(size-len(v), size) ++ v"
@@ -46,27 +52,27 @@ func (P *Prog) leftPad(fn *ssa.Function, v ssa.Value, depth int) (*padInfo, stri
 			return &padInfo{size: bnd["S"], coord: bnd["V"], guards: factSet{}}, ""
 		}
 		if h := x.Call.StaticCallee(); h != nil && P.inPkg(h) && h.Signature.Results().Len() == 1 {
-			return P.padByHelper(fn, x, h, depth)
+			return P.padByHelper(eng, fn, x, h, depth)
 		}
 	case *ssa.Extract:
 		if c, ok := x.Tuple.(*ssa.Call); ok && x.Index == 0 {
 			if h := c.Call.StaticCallee(); h != nil && P.inPkg(h) {
-				return P.padByHelper(fn, c, h, depth)
+				return P.padByHelper(eng, fn, c, h, depth)
 			}
 		}
 	}
-	return nil, "value " + truncate(P.terms.of(v).String(), 140) + " is not a recognised padding construction"
+	return nil, "value " + truncate(eng.of(v).String(), 140) + " is not a recognised padding construction"
 }
 
 // padByCopy: M = make([]byte, size); copy(M[low:], v) with low == size-len(v)
 // and no other write through M.
-func (P *Prog) padByCopy(fn *ssa.Function, m *ssa.MakeSlice) (*padInfo, string) {
+func (P *Prog) padByCopy(eng *termEngine, fn *ssa.Function, m *ssa.MakeSlice) (*padInfo, string) {
 	if m.Cap != m.Len {
-		if P.linearize(tSub(P.terms.of(m.Cap), P.terms.of(m.Len))).nonZero() {
+		if P.linearize(tSub(eng.of(m.Cap), eng.of(m.Len))).nonZero() {
 			return nil, "make with a capacity different from the length"
 		}
 	}
-	size := P.terms.of(m.Len)
+	size := eng.of(m.Len)
 	var copies []*ssa.Call
 	var lows []*Term
 	for _, ref := range *m.Referrers() {
@@ -87,7 +93,7 @@ func (P *Prog) padByCopy(fn *ssa.Function, m *ssa.MakeSlice) (*padInfo, string) 
 				copies = append(copies, c)
 				lo := tInt(0)
 				if u.Low != nil {
-					lo = P.terms.of(u.Low)
+					lo = eng.of(u.Low)
 				}
 				lows = append(lows, lo)
 			}
@@ -112,7 +118,7 @@ func (P *Prog) padByCopy(fn *ssa.Function, m *ssa.MakeSlice) (*padInfo, string) 
 	if len(copies) != 1 {
 		return nil, "expected exactly one copy into the zeroed buffer"
 	}
-	coord := P.terms.of(copies[0].Call.Args[1])
+	coord := eng.of(copies[0].Call.Args[1])
 	// low == size - len(coord), identically
 	d := P.linearize(tSub(lows[0], tSub(size, tLen(coord))))
 	if d.nonZero() {
@@ -147,7 +153,7 @@ func before(a, b ssa.Instruction) bool {
 
 // padByHelper: the value is result 0 of helper h; every exit of h that can
 // deliver it (ok result not constantly false) pads the same parameter.
-func (P *Prog) padByHelper(fn *ssa.Function, c *ssa.Call, h *ssa.Function, depth int) (*padInfo, string) {
+func (P *Prog) padByHelper(eng *termEngine, fn *ssa.Function, c *ssa.Call, h *ssa.Function, depth int) (*padInfo, string) {
 	if depth > 2 {
 		return nil, "padding helper chain too deep"
 	}
@@ -160,7 +166,7 @@ func (P *Prog) padByHelper(fn *ssa.Function, c *ssa.Call, h *ssa.Function, depth
 	}
 	m := map[string]*Term{}
 	for i, a := range c.Call.Args {
-		m[itoa(int64(i))] = P.terms.of(a)
+		m[itoa(int64(i))] = eng.of(a)
 	}
 	var out *padInfo
 	for _, x := range P.factsOf(h).exits {
@@ -196,7 +202,7 @@ func (P *Prog) padByHelper(fn *ssa.Function, c *ssa.Call, h *ssa.Function, depth
 		return nil, "helper " + shortFn(h) + " never delivers a value"
 	}
 	if okIdx >= 0 {
-		ct := P.terms.of(c)
+		ct := eng.of(c)
 		out.gated = &Term{Op: "res", S: "1", Args: []*Term{ct}}
 	}
 	return out, ""
